@@ -361,7 +361,11 @@ func (w *WaitTask) StatusUpdate(taskContext *TaskContext, id object.ObjMetadata)
 		// If a failed resource becomes current before other
 		// resources have completed/timed out, we consider it
 		// current.
-		if w.reconciledByID(taskContext, id) {
+		if w.changedUID(taskContext, id) {
+			// replaced - the new object is not the one that was actuated
+			w.handleChangedUID(taskContext, id)
+			w.failed = w.failed.Remove(id)
+		} else if w.reconciledByID(taskContext, id) {
 			// reconciled - remove from pending & send event
 			err := taskContext.InventoryManager().SetSuccessfulReconcile(id)
 			if err != nil {
